@@ -275,6 +275,33 @@ def legacy_fixed_case(rng):
     spec = {'encoding': enc, 'uuid': 'legacy-%08x' % rng.getrandbits(32), 'base': base, 'prince': [], 'terms': terms, 'omen': None}
     return {'spec': spec, 'flags': {'skip_brute': False, 'all_lower': False}, 'hseed': rng.getrandbits(32), 'legacy_fixed': True}
 
+def check_typed_terminal(run, case):
+    """Standard input is a terminal somebody types on (ENTER, h) while standard output is a pipe: the usual way the tool feeds a cracker.  What arrives on the
+    pipe is the guess stream and nothing else (no prompt, no echo, no status text)."""
+    from . import c12
+    name, path = gstream.materialise(case['spec'], 'c09t')
+    sn = session.new_session_name('c09t')
+    try:
+        U = session.run_main(['-r', name, '-s', sn])
+        ref = ('\n'.join(U.guesses) + '\n').encode('utf-8') if U.guesses else b''
+        # the stream is generated in a fraction of a second: the generator is held by back-pressure (stdout not read) while the requests are typed, then released
+        for typed in ([b'\n', b'h\n', b'\n'], [b'\n', b'\n', b'x\n']):
+            out, err, rc, to, info = cli.run_cli_blocked('pcfg_guesser.py', ['-r', name, '-s', sn + 'tty'], typed, settle=0.5, use_pty=True)
+            run.ev('cli_runs'); run.ev('typed_terminal_runs')
+            if to or not info['blocked']:
+                run.inconc('cli watchdog / generator not blocked'); continue
+            if out != ref:
+                got = out.split(b'\n')
+                want = set(ref.split(b'\n'))
+                foreign = [l.decode('utf-8', 'replace') for l in got if l not in want][:3]
+                run.violation(f'requests typed on a terminal while stdout is a pipe: stdout is not the guess stream ({len(got) - 1} lines of {len(U.guesses)}; lines that are no guesses: {foreign})',
+                              case, observed=foreign); return
+            session.drop_session(sn + 'tty')
+        run.case(h(['typed-terminal', case['spec']['uuid']]))
+    finally:
+        session.drop_session(sn); session.drop_session(sn + 'tty')
+        repo.drop_rules(name)
+
 def markov_heavy_case(rng, tier):
     pm, n = (0.999, 60) if tier == 'quick' else (0.9995, 1200)
     spec = rulesets.gen_spec(rng, with_m=True, labels=['D1', 'A2'], n_base=2, max_len=2, min_groups=1, max_groups=2, max_per_group=3, pool='counts')
@@ -297,6 +324,9 @@ def run(run, rng):
         run.guard(gen_case(rng), check_case, run.tier, seconds=600)
     if run.shard[0] == 1 % run.shard[1]:
         run.guard(markov_heavy_case(rng, run.tier), check_markov_heavy, seconds=900)
+    if run.shard[0] == 0:
+        from . import c12
+        run.guard({'spec': c12.huge_spec(rng), 'hseed': 0, 'typed_terminal': True}, check_typed_terminal, seconds=600)
     if run.shard[0] == 3 % run.shard[1]:
         run.ev('legacy_code_page_cases')
         run.guard(legacy_fixed_case(rng), check_case, run.tier, seconds=600)
@@ -310,7 +340,9 @@ def run(run, rng):
 
 def replay(run, case):
     c = case['case']
-    if c.get('markov_heavy'):
+    if c.get('typed_terminal'):
+        check_typed_terminal(run, c)
+    elif c.get('markov_heavy'):
         check_markov_heavy(run, c)
     elif c.get('error_paths'):
         check_error_paths(run, c)
